@@ -711,6 +711,16 @@ def validate_op(op, ts):
         assert op["kstyle"] in ("single", "resolved", "ones") or (isinstance(op["kstyle"], int) and op["kstyle"] >= 1)
 
 
+def _exc_bucket(kind, exc):
+    """util.exc_bucket with runs of 'nan, nan, ...' and of 'N, N, ...' collapsed (one bucket per message, not per block count)."""
+    import re
+
+    b = util.exc_bucket(kind, exc)
+    b = re.sub(r"\(+nan.*$", "(nan..)", b)  # the message is cut at 90 characters, so drop everything from the first chunk tuple on
+    b = re.sub(r"N(, N)+", "N..", b)
+    return b
+
+
 def _compare(got, exp, allow_nan=False):
     """None or (kind, text). got/exp: arrays, ints or shape tuples."""
     if isinstance(exp, tuple):
@@ -876,7 +886,7 @@ def run_case(case, steering=True):
             if isinstance(val, NotImplementedError):
                 labs.append("B-notimplemented:" + opl)
             else:
-                bfail = (util.exc_bucket(f"after-resolve-raises|{opl}", val), util.exc_detail(val))
+                bfail = (_exc_bucket(f"after-resolve-raises|{opl}", val), util.exc_detail(val))
         else:
             why = _compare(val, exp)
             if why:
